@@ -40,3 +40,15 @@ CHECKS["C11"] = (
     "Held on the inputs observed: for every padding-defect class, boundary length and value the decrypt result equals the real message or the specification's synthetic message (so its length distribution cannot depend on the defect), is deterministic across calls and key objects, and publicly invalid ciphertexts fail; in RSA-key-exchange handshakes of SSLv3..TLS 1.2 the server's observable behaviour (records consumed, records emitted, alert, failure point) is identical for 42 malformed-premaster classes.",
     "Timing is not an observable; keys without CRT parameters outside the domain.",
     "DESIGN.md section 3, C11")
+CHECKS["C05"] = (
+    "exploration",
+    "runtime monitoring: prover endpoint with a corrupting private-key proxy / deviant send hooks; oracle on the pristine verifier's recorded identity",
+    "Held on the executions observed: every proof site (ServerKeyExchange, client CertificateVerify, TLS 1.3 server/client CertificateVerify, post-handshake auth, SRP, PSK binder, Finished, Checker) x key type x corruption class (other key, replayed signature, other hash/padding, valid signature under an unoffered scheme, flipped/truncated/extended/empty/zero, proof omitted, wrong password/secret) - the verifier never ends 'completed with that identity'; every cell has its honest control.",
+    "The prover's own sign-then-verify guard is bypassed by the proxy (that guard is C10's subject); certificate path validation is not a library feature.",
+    "DESIGN.md section 3, C05")
+CHECKS["C06"] = (
+    "exploration",
+    "runtime monitoring: key-holding deviant peer emitting bounded-edit-distance message sequences, judged by an explicit RFC grammar; renegotiation monitors",
+    "Held on the executions observed: for each scenario and victim role the peer skips (consistently), duplicates, swaps, moves, inserts or replaces its own handshake/CCS messages (distance 1 quick, <=2 thorough), reaching protected phases of all versions; the victim completes only for sequences in the language, out-of-language sequences never deliver application data and end in a fatal alert (or legitimately waiting); junk after completion is refused; renegotiation attempts and a second handshake call never start a handshake. Known finding F16 (client leniency about NewSessionTicket) is reported.",
+    "Grammar written from RFC 5246/8446 with scenario options fixed by the honest trace (self-checked: every honest trace must be in its language).",
+    "DESIGN.md section 3, C06")
